@@ -33,7 +33,7 @@ def terminal_counter_on_every_path(ctx, rule, setters=('set_finished_state', 'se
             n += 1
             ctx.ob(rule, f'{fn}|{"+".join(sorted(old)) if old else "?"}->{v}|{cf}+', ok,
                    f'{fn}: a task that becomes {v} (from {sorted(old) if old else old}) is counted in {cf} on every path', b.loc(bi, s))
-    ctx.floor(rule, n, 7, 'terminal transitions')
+    ctx.floor(rule, n, 4, 'terminal transitions')
 
 
 def abort_before_fail(ctx, rule):
